@@ -442,7 +442,7 @@ theorem uniq_step {nsrc : Nat} {n : Net} (h : ∃ B, Uniq nsrc n B) (ev : Ev) (h
       obtain ⟨B', h'⟩ := uniq_runTask tk h0 hh
       exact ⟨B', by simpa only [step, hi] using h'⟩
   | .src p t =>
-    have hp : p < nsrc := hev
+    have hp : p < nsrc := hev.1
     have hnot : some p ∉ TM n B := fun hm => by have := (h.pend p hm).1; omega
     exact ⟨B, (uniq_complete h p t hnot (.inr hp) (Nat.lt_of_lt_of_le hp h.le)).1⟩
   | .mk e =>
